@@ -6,8 +6,86 @@ mod src_trait;
 #[path = "../../kani/shared/bodies_codec.rs"]
 mod bodies;
 
+// ---------------------------------------------------------------- bounded dynamic probes of the real decoder (C04): `verif-replay probe <what> ...`
+mod probe {
+    use std::alloc::{GlobalAlloc, Layout, System};
+    use std::sync::atomic::{AtomicUsize, Ordering};
+    pub static MAX: AtomicUsize = AtomicUsize::new(0);
+    pub struct Counting;
+    unsafe impl GlobalAlloc for Counting {
+        unsafe fn alloc(&self, l: Layout) -> *mut u8 { MAX.fetch_max(l.size(), Ordering::SeqCst); System.alloc(l) }
+        unsafe fn alloc_zeroed(&self, l: Layout) -> *mut u8 { MAX.fetch_max(l.size(), Ordering::SeqCst); System.alloc_zeroed(l) }
+        unsafe fn realloc(&self, p: *mut u8, l: Layout, n: usize) -> *mut u8 { MAX.fetch_max(n, Ordering::SeqCst); System.realloc(p, l, n) }
+        unsafe fn dealloc(&self, p: *mut u8, l: Layout) { System.dealloc(p, l) }
+    }
+
+    /// `depth` nested list32 headers around a list0: d0 <size> <count=1> ( ... 45 )
+    pub fn nested_list32(depth: usize) -> Vec<u8> {
+        let mut buf = Vec::with_capacity(9 * depth + 1);
+        for i in 0..depth {
+            let inner_len = 1 + 9 * (depth - i - 1);
+            buf.push(0xd0);
+            buf.extend_from_slice(&((4 + inner_len) as u32).to_be_bytes());
+            buf.extend_from_slice(&1u32.to_be_bytes());
+        }
+        buf.push(0x45);
+        buf
+    }
+
+    pub fn run(args: &[String]) -> i32 {
+        match args.get(0).map(|s| s.as_str()) {
+            Some("nest") => {
+                let depth: usize = args[1].parse().unwrap();
+                let buf = nested_list32(depth);
+                let r: Result<serde_amqp::Value, _> = serde_amqp::from_slice(&buf);
+                println!("PROBE nest depth={} input_len={} returned {}", depth, buf.len(), if r.is_ok() { "Ok" } else { "Err" });
+                0
+            }
+            Some("alloc") => {
+                // hostile declared lengths in front of almost no data: the largest single allocation must stay near the input size
+                let limit: usize = args[1].parse().unwrap();
+                let mut worst = 0usize;
+                let mut worst_case = String::new();
+                let mut inputs: Vec<(String, Vec<u8>)> = Vec::new();
+                for (name, code) in [("str32", 0xb1u8), ("vbin32", 0xb0), ("sym32", 0xb3)] {
+                    for len in [0x0010_0000u32, 0x4000_0000, 0x7fff_ffff, 0xffff_fff0] {
+                        let mut b = vec![code];
+                        b.extend_from_slice(&len.to_be_bytes());
+                        b.extend_from_slice(b"abc");
+                        inputs.push((format!("{} len={:#x}", name, len), b));
+                    }
+                }
+                // described value / list / map / array bodies that announce far more than they hold
+                inputs.push(("list32 size".into(), vec![0xd0, 0x7f, 0xff, 0xff, 0xff, 0, 0, 0, 1, 0x40]));
+                inputs.push(("map32 size".into(), vec![0xd1, 0x7f, 0xff, 0xff, 0xff, 0, 0, 0, 2, 0x40, 0x40]));
+                inputs.push(("array32 of str32".into(), vec![0xf0, 0x7f, 0xff, 0xff, 0xff, 0, 0, 0, 1, 0xb1, 0x7f, 0xff, 0xff, 0xf0]));
+                inputs.push(("described str32".into(), vec![0x00, 0x53, 0x77, 0xb1, 0x40, 0, 0, 0]));
+                for (name, b) in inputs.iter() {
+                    for mode in 0..4 {
+                        MAX.store(0, Ordering::SeqCst);
+                        let which = match mode {
+                            0 => { let _: Result<serde_amqp::Value, _> = serde_amqp::from_slice(b); "from_slice::<Value>" }
+                            1 => { let _: Result<serde_amqp::Value, _> = serde_amqp::from_reader(&b[..]); "from_reader::<Value>" }
+                            2 => { let _: Result<serde_amqp::lazy::LazyValue, _> = serde_amqp::from_slice(b); "from_slice::<LazyValue>" }
+                            _ => { let _: Result<serde_amqp::lazy::LazyValue, _> = serde_amqp::from_reader(&b[..]); "from_reader::<LazyValue>" }
+                        };
+                        let m = MAX.load(Ordering::SeqCst);
+                        if m > worst { worst = m; worst_case = format!("{} via {} input={:02x?}", name, which, b); }
+                    }
+                }
+                println!("PROBE alloc largest single allocation {} bytes ({})", worst, worst_case);
+                if worst > limit { println!("PROBE alloc FAILS-ON-REAL-CODE: {} > limit {}", worst, limit); 1 } else { 0 }
+            }
+            _ => { eprintln!("usage: verif-replay probe nest <depth> | alloc <limit>"); 2 }
+        }
+    }
+}
+#[global_allocator]
+static ALLOC: probe::Counting = probe::Counting;
+
 fn main() {
     let args: Vec<String> = std::env::args().collect();
+    if args.len() >= 2 && args[1] == "probe" { std::process::exit(probe::run(&args[2..])); }
     if args.len() < 3 { eprintln!("usage: verif-replay <harness> <hex>"); std::process::exit(2); }
     let name = args[1].clone();
     let hex = args[2].clone();
